@@ -47,7 +47,9 @@ def root_class(r):
                 static = "?"
     if (kind == "BinOperation:FunctionCall" and isinstance(static, list) and static[:2] == ["tup", "bool"]
             and isinstance(value, list) and value[:2] == ["tup", "false"]):
-        return "exhausted-iterator-junk"
+        # the known design-level finding is about element types without any value (`!` inside);
+        # a placeholder outside an INHABITED element type is a different matter
+        return "exhausted-iterator-junk" if "never" in sexp_str(static) else "exhausted-iterator-placeholder"
     return "%s/%s" % (kind, sexp_str(static) if isinstance(static, list) else static)
 
 
@@ -123,7 +125,10 @@ def judge(res, recs, broken_model, want_tags=False, label="prog"):
             if nshrunk < 3:
                 nshrunk += 1
                 key = (r.ivalue or "")[:6]
-                rr = shrink_rec(r, lambda x: x.status == st and (x.ivalue or "")[:6] == key)
+                rc0 = root_class(r)
+                # a smaller program only stands for this one if the monitor classifies it the same way
+                # (shrinking must not turn an unexplained difference into a listed finding, or vice versa)
+                rr = shrink_rec(r, lambda x: x.status == st and (x.ivalue or "")[:6] == key and root_class(x) == rc0)
             res.violation("implementation and reference semantics differ on `%s`: impl %s, Spec %s" % (rr.src[:400], rr.ivalue, rr.mvalue),
                           dict(program=rr.src, flags=rr.flags, impl=rr.impl, model=rr.model, sexp=rr.sexp, original=r.src),
                           dict(oracle="spec-diff", root=root_of(rr) or root, rootcls=root_class(rr) or root_class(r), cls="tags" if st == "agree-content" else "value"))
@@ -132,7 +137,8 @@ def judge(res, recs, broken_model, want_tags=False, label="prog"):
             if nshrunk < 3:
                 nshrunk += 1
                 at = r.panic_at
-                rr = shrink_rec(r, lambda x: x.status == "exec-panic" and x.panic_at == at)
+                rc0 = root_class(r)
+                rr = shrink_rec(r, lambda x: x.status == "exec-panic" and x.panic_at == at and root_class(x) == rc0)
             res.violation("accepted program panics at %s: `%s`" % (rr.panic_at, rr.src[:400]),
                           dict(program=rr.src, flags=rr.flags, impl=rr.impl, model=rr.model, original=r.src),
                           dict(oracle="panic", root=root_of(rr) or root or ("site:" + str(rr.panic_at)), rootcls=root_class(rr) or root_class(r)))
